@@ -10,6 +10,7 @@ use rosu_pp::{
     mania::{ManiaGradualPerformance, ManiaPerformance, ManiaScoreState},
     taiko::{Taiko, TaikoGradualPerformance, TaikoPerformance, TaikoScoreState},
     osu::{verif as ov, Osu, OsuGradualPerformance, OsuPerformance, OsuScoreState},
+    catch::{verif as cv, Catch, CatchGradualPerformance, CatchPerformance, CatchScoreState},
     model::{hit_object::HitObjectKind, mode::GameMode},
     Beatmap, Difficulty,
 };
@@ -459,6 +460,128 @@ pub fn osu_case(run: &mut Run, id: &str, map: &Beatmap, settings: &Settings, pas
     run.eval(Some(id));
 }
 
+pub struct CatchInputs {
+    pub acc: Option<f64>,
+    pub fields: [Option<u32>; 6],
+    pub gstate: [u32; 6],
+}
+
+fn catch_show(pre: &str, p: &rosu_pp::catch::CatchPerformanceAttributes) -> String {
+    format!(
+        "{pre}pp={} {pre}st={} {pre}nf={} {pre}nd={} {pre}nt={}",
+        showf(p.pp), showf(p.difficulty.stars), p.difficulty.n_fruits, p.difficulty.n_droplets, p.difficulty.n_tiny_droplets
+    )
+}
+
+/// native catch maps and osu! -> catch converts; legacy mod bits only (NF / HD / FL reach the pp formula)
+pub fn catch_case(run: &mut Run, id: &str, map: &Beatmap, bits: u32, rate: Option<f64>, passed: Option<u32>, i: &CatchInputs, rng: &mut Rng, repro: &str) {
+    let mk = |with_take: bool| {
+        let mut d = Difficulty::new().mods(bits);
+        if let Some(r) = rate {
+            d = d.clock_rate(r);
+        }
+        if with_take {
+            if let Some(k) = passed {
+                d = d.passed_objects(k);
+            }
+        }
+        d
+    };
+    let d = mk(true);
+    let (m2, d2) = (map.clone(), d.clone());
+    let Ok(Ok(inputs)) = guarded(move || cv::pipeline_inputs(&d2, &m2)) else { return };
+    let n_palp: usize = inputs.steps.iter().map(|s| s.palpables.len()).sum();
+    let mut objs: Vec<String> = Vec::with_capacity(inputs.steps.len());
+    for (s, sl) in inputs.steps.iter().zip(inputs.sliders.iter()) {
+        match (s.kind, sl) {
+            (0, _) => objs.push(format!("f:{}:{}", h32(s.x), h64(s.start_time))),
+            (2, _) => objs.push(format!("b:{}", s.n_bananas)),
+            (1, Some(si)) => {
+                let xs: Vec<String> = s.nested.iter().filter(|q| q.0 != 2).map(|q| h32(q.1)).collect();
+                objs.push(format!(
+                    "s:{}:{}:{}:{}:{}:{}:{}:{}:{}",
+                    h32(s.x), h32(s.last_control_x), si.start_time.to_bits(), si.beat_len.to_bits(), si.slider_velocity.to_bits(),
+                    u8::from(si.generate_ticks), si.dist.to_bits(), si.span_count, if xs.is_empty() { "-".to_owned() } else { xs.join(",") }
+                ));
+            }
+            _ => return,
+        }
+    }
+    let build = |map: &Beatmap| {
+        let Ok(mut p) = CatchPerformance::try_new(map.clone()).ok_or(()) else { return None };
+        p = p.difficulty(d.clone());
+        if let Some(a) = i.acc {
+            p = p.accuracy(a);
+        }
+        let f = i.fields;
+        if let Some(v) = f[0] { p = p.combo(v); }
+        if let Some(v) = f[1] { p = p.fruits(v); }
+        if let Some(v) = f[2] { p = p.droplets(v); }
+        if let Some(v) = f[3] { p = p.tiny_droplets(v); }
+        if let Some(v) = f[4] { p = p.tiny_droplet_misses(v); }
+        if let Some(v) = f[5] { p = p.misses(v); }
+        Some(p)
+    };
+    let one = match guarded(|| build(map).map(|p| p.calculate())) {
+        Ok(Some(Ok(p))) => catch_show("", &p),
+        Ok(_) => return,
+        Err(_) => "GSPANIC".to_owned(),
+    };
+    // the catch score state's `total_hits()` is a plain u32 sum (round-4 observation): not compared when it wraps
+    let tot: u64 = i.fields.iter().skip(1).map(|f| u64::from(f.unwrap_or(0))).sum();
+    if tot > u64::from(u32::MAX) / 2 {
+        run.count("PIPEP-catch: skipped, provided results near u32::MAX (total_hits() may wrap)");
+        return;
+    }
+    let mut gidx: Vec<usize> = Vec::new();
+    let mut g = String::new();
+    if passed.is_none() && n_palp > 0 {
+        gidx = vec![1, n_palp, 1 + rng.below(n_palp as u64) as usize];
+        gidx.sort_unstable();
+        gidx.dedup();
+        let s = i.gstate;
+        let state = CatchScoreState { max_combo: s[0], fruits: s[1], droplets: s[2], tiny_droplets: s[3], tiny_droplet_misses: s[4], misses: s[5] };
+        for k in &gidx {
+            let (m2, st, k2, d2) = (map.clone(), state.clone(), *k, mk(false));
+            let v = guarded(move || CatchGradualPerformance::new(d2, &m2).ok().and_then(|mut gp| gp.nth(st, k2 - 1)));
+            match v {
+                Ok(Some(p)) => g.push_str(&format!(" {}", catch_show(&format!("g{k}."), &p))),
+                Ok(None) => g.push_str(&format!(" g{k}=none")),
+                Err(_) => g.push_str(&format!(" g{k}.GSPANIC")),
+            }
+        }
+    }
+    let _ = Catch;
+    run.count("lines:PIPEP-catch");
+    run.count(&format!("PIPEP-catch:convert={}", inputs.is_convert));
+    run.repro.insert(id.to_owned(), repro.to_owned());
+    let f: Vec<String> = i.fields.iter().map(|x| opt(*x)).collect();
+    let gs: Vec<String> = i.gstate.iter().map(u32::to_string).collect();
+    run.line(
+        id,
+        format!(
+            "PIPEP catch {bits} {} {} {} {} {} {} {} {} {} {} {} {} {} {} {}",
+            i.acc.map_or("-".to_owned(), |a| format!("{:016x}", stored_acc(a).to_bits())),
+            f.join(" "),
+            gs.join(","),
+            inputs.version,
+            inputs.slider_multiplier.to_bits(),
+            inputs.slider_tick_rate.to_bits(),
+            u8::from(inputs.hr_offsets),
+            u8::from(inputs.reflect_horizontally),
+            h32(inputs.cs),
+            h64(inputs.ar),
+            h64(inputs.clock_rate),
+            u8::from(inputs.is_convert),
+            if inputs.take == usize::MAX { "-".to_owned() } else { inputs.take.to_string() },
+            if gidx.is_empty() { "-".to_owned() } else { gidx.iter().map(|k| k.to_string()).collect::<Vec<_>>().join(",") },
+            if objs.is_empty() { "-".to_owned() } else { objs.join(";") }
+        ),
+        format!("{one}{g}"),
+    );
+    run.eval(Some(id));
+}
+
 fn pick_count(rng: &mut Rng, n: u32) -> u32 {
     match rng.below(8) {
         0 => 0,
@@ -632,5 +755,46 @@ pub fn run(run: &mut Run, tier: &str, seed: u64, only: Option<&str>) {
             };
             osu_case(run, &id, &map, &settings, if j == 3 { Some(60) } else { None }, &inp, &mut rng, &format!("resource map {ri} first 120 objects mods {bits}"));
         }
+    }
+    // --- osu!catch (native and osu! converts) from decoded objects
+    let n_catch = if thorough { 3000 } else { 400 };
+    for ci in 0..n_catch {
+        let id = format!("pipep-catch-{ci}");
+        if only.is_some_and(|o| o != id) {
+            continue;
+        }
+        let mut rng = Rng::new(seed ^ hash64(&id));
+        let mut cfg = GenCfg::small(if rng.chance(1, 2) { 2 } else { 0 });
+        cfg.max_objects = *rng.pick(&[0, 1, 3, 6, 12, 24]);
+        cfg.weights = *rng.pick(&[[10, 0, 0, 0], [10, 4, 2, 1], [4, 10, 2, 0]]);
+        cfg.max_slides = *rng.pick(&[1, 2, 5]);
+        let mut spec = random_map(&mut rng, &cfg);
+        spec.version = *rng.pick(&[14, 14, 128, 9, 7]);
+        let text = spec.render();
+        let Ok(map) = decode(&text) else { continue };
+        let bits = *rng.pick(&[0u32, 1, 8, 1024, 8 + 1024 + 1, 16, 64, 256, 2, 16 + 8]);
+        let rate = if rng.chance(1, 5) { Some(*rng.pick(&[0.75, 1.25, 1.5])) } else { None };
+        let len = map.hit_objects.len() as u32;
+        let passed = match rng.below(3) {
+            0 | 1 => None,
+            _ => Some(rng.below(u64::from(len) * 3 + 3) as u32),
+        };
+        let mut fields = [None; 6];
+        for f in fields.iter_mut() {
+            if rng.chance(1, 3) {
+                *f = Some(pick_count(&mut rng, len * 3));
+            }
+        }
+        let inp = CatchInputs {
+            acc: match rng.below(4) {
+                0 => None,
+                1 => Some(*rng.pick(&[0.0, 100.0, 50.0, 99.99])),
+                _ => Some((rng.unit() * 10000.0).round() / 100.0),
+            },
+            fields,
+            gstate: [0; 6].map(|_| rng.below(u64::from(len) * 2 + 2) as u32),
+        };
+        let repro = format!("{text}\n# mods {bits} rate {rate:?} passed_objects: {passed:?} acc {:?} fields {:?} gstate {:?}", inp.acc, inp.fields, inp.gstate);
+        catch_case(run, &id, &map, bits, rate, passed, &inp, &mut rng, &repro);
     }
 }
